@@ -306,6 +306,13 @@ def probe_job(item):
     return execute(["IH", spx(elem, v), "SP", "DEINIT", "DH"])
 
 
+def chain_job(chain):
+    ops = ["IH"]
+    for elem, v in chain:
+        ops += [spx(elem, v), "SP"]
+    return execute(ops + ["DEINIT", "DH"], watchdog=40)
+
+
 def full_job(item):
     elem, v = item
     return execute(["IH", spx(elem, v), "SP", "IN", "SEND", "EOS", "DRAIN", "DEINIT", "DH"])
@@ -322,8 +329,30 @@ def reject_sweep(ck, tier, stats):
     accept a valid configuration afterwards (cheap probe for every rejected (element, value)) and run a whole session (one value per element)"""
     elems = [e for e in element_names() if not e.startswith(PROBE_SKIP)]
     items = [(g, 0) for g in GROUPS] + [(e, v) for v in PROBE_VALUES for e in elems]   # value-major: every element is probed before the second value starts
-    res, done = vlib.pmap_deadline(probe_job, items, time.time() + 0.25 * ck.budget)
+    # first pass: chains of 8 probes on one handle (IH, [SPX_i, SP]*8, DEINIT, DH): init_handle dominates the cost of a probe.  A chain
+    # in which everything returns and every valid SP succeeds settles its 8 members; members of any other chain are probed one by one
+    t_end = time.time() + 0.25 * ck.budget
+    chains = [items[i:i + 8] for i in range(0, len(items), 8)]
+    cres, cdone = vlib.pmap_deadline(chain_job, chains, t_end)
+    settled, single = [], []
+    for chain, r in cres:
+        seq = [(l[0], int(l[1])) for l in r["lines"] if l and l[0] not in ("PACKET", "END", "WATCHDOG", "SIGNAL") and len(l) > 1]
+        good = (not blocked(r) and r.get("rc") == 0 and len(seq) == 3 + 2 * len(chain) and
+                all(seq[2 + 2 * i][1] == ERR_NONE for i in range(len(chain))) and seq[-1][1] == ERR_NONE and seq[-2][1] == ERR_NONE)
+        if good:
+            for i, it in enumerate(chain):
+                settled.append((it, seq[1 + 2 * i][1]))
+        else:
+            single += chain
+    done_chains = set(id(c) for c, _ in cres)
+    single += [it for c in chains if id(c) not in done_chains for it in c]
+    res, done = vlib.pmap_deadline(probe_job, single, max(t_end, time.time() + 0.1 * ck.budget))
     rejected, per_elem = 0, {}
+    for (e, v), rc in settled:
+        if rc != ERR_NONE:
+            rejected += 1
+            per_elem.setdefault(e, v)
+    stats["probes_settled_in_chains"] = len(settled)
     for (e, v), r in res:
         hist, op, comp = ["IH"], spx(e, v), ["SP", "DEINIT", "DH"]
         if blocked(r):
@@ -351,7 +380,7 @@ def reject_sweep(ck, tier, stats):
                 continue
         seq = [(l[0], int(l[1])) for l in r["lines"] if l and l[0] not in ("PACKET", "END", "WATCHDOG", "SIGNAL") and len(l) > 1]
         judge_after_reject(ck, e, hist, op, comp, r, seq, seq[1][1] if len(seq) > 1 else None)
-    return {"probed": len(res), "enumerated": len(items), "rejected": rejected, "elements": len(elems), "elements_with_rejection": len(per_elem),
+    return {"probed": len(res) + len(settled), "probed_in_chains_of_8": len(settled), "probed_one_by_one": len(res), "enumerated": len(items), "rejected": rejected, "elements": len(elems), "elements_with_rejection": len(per_elem),
             "full_sessions_after_rejection": len(res2), "complete": bool(done and done2)}
 
 
